@@ -120,7 +120,10 @@ def check(name, case, rec):
     I = np.eye(3).reshape(3, 3, 1, 1) * np.ones((1, 1) + batch)
     P0 = P_of(I, sv0)
     A0 = A_of(I, sv0)
-    rec.close("stress-free-at-I", float(np.abs(P0).max()) / float(np.abs(A0).max()), 20 * e["reg"] if e["reg"] else (1e-6 if (e["spectral"] or morph) else 1e-9), {"params": case["params"]})
+    # measured against the stiffness - that of the reference state, but not more than ten times that of the deformed state of this
+    # case (a tangent that blows up at F = 1, e.g. a non-symmetric function of regularised equal eigenvalues, is no yardstick)
+    den0 = min(float(np.abs(A0).max()), 10.0 * float(np.abs(A).max()))
+    rec.close("stress-free-at-I", float(np.abs(P0).max()) / den0, 20 * e["reg"] if e["reg"] else (1e-6 if (e["spectral"] or morph) else 1e-9), {"params": case["params"]})
     # major symmetry
     if e["hyper"]:
         Ab = np.broadcast_to(A, (3, 3, 3, 3) + batch)
